@@ -14,7 +14,7 @@ PROPERTY_ID = "C15"
 RULE = (
     "case = history over a TrackedDfg of width 0..6 (mixed copyable/linear inputs): track_inputs / track_wire / "
     "track_wires / untrack_wire / add (mixed integer and wire arguments, optional metadata; ops with as many, more or "
-    "fewer outputs than inputs) / extend, ended by "
+    "fewer outputs than inputs; also the same command object added again) / extend, ended by "
     "set_indexed_outputs or set_tracked_outputs; operands are selectors modulo the tracked indices / known wires. "
     "Oracle: the harness keeps the statement's reference table index -> wire and drives a plain Dfg with explicit "
     "wires in parallel; after every step `tracked` equals the table, at the end both HUGRs are equal node for node, "
@@ -97,9 +97,9 @@ def check(case) -> list[Fail]:
             raise InvalidCase
         return (opn, targs, xw, rebinding, meta)
 
-    def apply_add(planned):
+    def apply_add(planned, op_obj=None):
         opn, targs, xw, rebinding, meta = planned
-        n2 = d.add_op(mk_op(opn), *[W(w) for w in xw], metadata=meta)
+        n2 = d.add_op(op_obj if op_obj is not None else mk_op(opn), *[W(w) for w in xw], metadata=meta)
         for idx, pos in rebinding:
             table[idx] = (n2.idx, pos)
         for k in range(OPS[opn][1]):
@@ -123,6 +123,8 @@ def check(case) -> list[Fail]:
         if type(e1) is not type(e2):
             fails.append(Fail(what, "error-agreement", f"tracked: {e1!r} explicit: {e2!r}"[:300]))
         return True
+
+    made: list = []  # (command object, op name, per-argument ("i", index) | ("w", wire), metadata)
 
     ended = False
     for s in case["steps"]:
@@ -160,13 +162,30 @@ def check(case) -> list[Fail]:
             if (gp.node.idx, gp.offset) != table[idx]:
                 fails.append(Fail("untrack", "returned-wire", f"{gp!r} vs {table[idx]}"))
             table[idx] = None
-        elif kind == "add":
-            planned = do_add(s[1], s[2], s[3])
-            if planned is None:
-                continue
+        elif kind in ("add", "readd"):
+            if kind == "readd":
+                # the same command object added again: its integer arguments denote the wires tracked now
+                if not made:
+                    continue
+                com_obj, opn, spec, meta = made[s[1] % len(made)]
+                if opn == "noop":
+                    # a partial op object is re-typed by its next use (shared with the node added first): the
+                    # explicit twin, which builds its ops afresh, would not show that; not C15's subject
+                    continue
+                if any(a[0] == "i" and table[a[1]] is None for a in spec):
+                    continue
+                xw = [table[a[1]] if a[0] == "i" else a[1] for a in spec]
+                planned = (opn, None, xw, [(a[1], pos) for pos, a in enumerate(spec) if a[0] == "i"], meta)
+            else:
+                planned = do_add(s[1], s[2], s[3])
+                if planned is None:
+                    continue
+                com_obj = mk_op(planned[0])(*planned[1])
+                spec = [("i", a) if isinstance(a, int) else ("w", w) for a, w in zip(planned[1], planned[2])]
+                made.append((com_obj, planned[0], spec, planned[4]))
             e1 = e2 = None
             try:
-                n1 = t.add(mk_op(planned[0])(*planned[1]), metadata=planned[4])
+                n1 = t.add(com_obj, metadata=planned[4])
             except Exception as e:  # noqa: BLE001
                 e1 = e
             try:
@@ -283,6 +302,7 @@ STEP = weighted(
     (1, st.tuples(st.just("track_wires"), st.lists(SEL, max_size=3)).map(list)),
     (2, st.tuples(st.just("untrack"), SEL).map(list)),
     (6, com().flatmap(lambda c: store.META.map(lambda m: ["add", c[0], c[1], m]))),
+    (1, st.tuples(st.just("readd"), SEL).map(list)),
     (1, st.lists(com(), min_size=1, max_size=3).map(lambda cs: ["extend", cs])),
 )
 END = st.one_of(st.just(["set_tracked_outputs"]), st.lists(ARG, max_size=4).map(lambda a: ["set_indexed_outputs", a]))
